@@ -33,6 +33,9 @@ import (
 	"net"
 	"os"
 	"path/filepath"
+	"runtime"
+	"runtime/debug"
+	"runtime/pprof"
 	"strings"
 	"sync"
 	"sync/atomic"
@@ -521,9 +524,11 @@ func c17NewRun(id int, seed int64, base string, outcome string, upload bool) (*c
 		return nil, err
 	}
 	r.binary = r.rng.Intn(2) == 0
-	nfiles := 1 + r.rng.Intn(3)
+	nfiles := 1 + r.rng.Intn(2)
 	for i := 0; i < nfiles; i++ {
-		n := []int{0, 1, 37, 1000, 5000, 20000, 70000}[r.rng.Intn(7)]
+		// small files: every protocol line costs the code's trace log (our observation point) a
+		// fresh zlib writer (~1 MB of garbage per record)
+		n := []int{0, 1, 37, 600, 3000, 12000}[r.rng.Intn(6)]
 		b := make([]byte, n)
 		switch r.rng.Intn(3) {
 		case 0:
@@ -811,6 +816,9 @@ func (r *c17Run) close() {
 	}
 	r.cinW.Close()
 	r.c2sW.Close()
+	// the filter's wrapOutput goroutine stays for ever (see below): cut what it keeps alive
+	r.filter.SetTunnelConnector(nil)
+	r.filter.logger = nil
 	// s2c stays open on purpose: TrzszFilter.wrapOutput polls for ever after EOF
 	os.RemoveAll(r.work)
 }
@@ -1311,6 +1319,7 @@ func (r *c17Run) storm(c *c17Case) {
 
 func c17MBT(d *vCtx) error {
 	var err error
+	debug.SetMemoryLimit(int64(d.pInt("memlimit_mb", 512)) << 20)
 	os.Unsetenv("TMUX")
 	if c17DevNull, err = os.OpenFile(os.DevNull, os.O_WRONLY, 0); err != nil {
 		return err
@@ -1379,6 +1388,13 @@ func c17MBT(d *vCtx) error {
 			return err
 		}
 		os.RemoveAll(base)
+		if hp := d.pStr("heapprof", ""); hp != "" {
+			runtime.GC()
+			if f, err := os.Create(hp); err == nil {
+				_ = pprof.WriteHeapProfile(f)
+				f.Close()
+			}
+		}
 		return vWriteJSON(d.path("infos.json"), infos)
 	})
 }
@@ -1714,6 +1730,7 @@ func c17RandomTCPPlan(p *c17TCPPlan, rng *rand.Rand, scripts []string) {
 
 func c17TCP(d *vCtx) error {
 	var err error
+	debug.SetMemoryLimit(int64(d.pInt("memlimit_mb", 512)) << 20)
 	os.Unsetenv("TMUX")
 	if c17DevNull, err = os.OpenFile(os.DevNull, os.O_WRONLY, 0); err != nil {
 		return err
@@ -2007,6 +2024,7 @@ func c17RunRelay(p *c17TCPPlan, base string) ([]map[string]any, map[string]any, 
 
 func c17Relay(d *vCtx) error {
 	var err error
+	debug.SetMemoryLimit(int64(d.pInt("memlimit_mb", 512)) << 20)
 	os.Unsetenv("TMUX")
 	os.Setenv("PATH", "/nonexistent") // TrzszRelay.resetToStandby runs `tmux refresh-client`
 	if c17DevNull, err = os.OpenFile(os.DevNull, os.O_WRONLY, 0); err != nil {
